@@ -34,11 +34,14 @@ func (node *ChildNode) Individual() *IndividualNode {
 
 	n := node.family.document.NodeByPointer(valueToPointer(node.value))
 
-	if IsNil(n) {
+	// The pointer may be dangling or refer to a record that is not an
+	// individual. Neither is an individual.
+	individual, ok := n.(*IndividualNode)
+	if !ok {
 		return nil
 	}
 
-	return n.(*IndividualNode)
+	return individual
 }
 
 func (node *ChildNode) Father() *HusbandNode {
